@@ -747,3 +747,55 @@ func ruleBump(c *Ctx) {
 	}
 	c.census("C13-BUMP", "version bumps whose result is used", n, 2)
 }
+
+// rulePull (C19-PULL): a configuration-change notification always leads to a pull of the configuration: every
+// path through the handler starts (go / call) something that reaches the client's Configuration request.
+func rulePull(c *Ctx) {
+	ci := buildConc(c)
+	var h *ssa.Function
+	if fd := c.P.handlerByParam("protocol.DidChangeConfigurationParams"); fd != nil {
+		h = c.P.ssaOf(fd)
+	}
+	if h == nil {
+		c.undecided("C19-PULL", "server", "configuration-change handler", token.NoPos, "handler taking *protocol.DidChangeConfigurationParams not found")
+		return
+	}
+	reachesPull := func(root *ssa.Function) bool {
+		for f := range Reach(ci.g, []*ssa.Function{root}, false) {
+			for _, b := range f.Blocks {
+				for _, ins := range b.Instrs {
+					if call, ok := ins.(ssa.CallInstruction); ok && call.Common().IsInvoke() && call.Common().Method.Name() == "Configuration" &&
+						strings.HasSuffix(types.TypeString(call.Common().Value.Type(), nil), "protocol.Client") {
+						return true
+					}
+				}
+			}
+		}
+		return false
+	}
+	starts := func(x ssa.Instruction) bool {
+		call, ok := x.(ssa.CallInstruction)
+		if !ok {
+			return false
+		}
+		for _, t := range ci.calleesOf(call) {
+			if inModule(t) && reachesPull(t) {
+				return true
+			}
+		}
+		return false
+	}
+	n := 0
+	for _, b := range h.Blocks {
+		for _, ins := range b.Instrs {
+			if starts(ins) {
+				n++
+			}
+		}
+	}
+	c.census("C19-PULL", "starts of a configuration pull in the change handler", n, 1)
+	bad := escapesFlags(h.Blocks[0], 0, starts)
+	c.check(!bad, "C19-PULL", funcName(h), "every configuration change pulls the configuration", h.Pos(),
+		"every path through the handler starts a pull of the client's configuration",
+		"the configuration-change handler can return without pulling the configuration (a throttle, a cache, an early return): a change that arrives on such a path never takes effect")
+}
